@@ -54,13 +54,13 @@ CHECKS = {
     ),
     "C07": dict(
         engine="E2-product", category="exploration",
-        text="Full product over 6 coupled systems (fully coupled, weakly coupled downstream / upstream, self-coupled, state equation solved inside a discipline or left to the MDA; unequal sizes, names sorting differently from production order) x mode {auto, direct, adjoint} x matrix type {sparse, sparse + LU, linear operator} x the 8 linear solvers accepting a non-symmetric system x every non-empty subset of inputs x every non-empty subset of outputs (couplings / states among them) x 2 points x 5 MDA kinds x Jacobian representation (dense, csr, operator) x partial or full fill, plus every ordered pair of requests on the SAME MDA object (discipline API and assembly API); oracle: dF/dx - dF/dy (dR/dy)^-1 dR/dx assembled densely by the harness and self-checked against a monolithic solve, with a tolerance derived from the solver tolerance and the conditioning.",
-        note="3 value alphabets by VERIF_SEED (kappa <= 3); conjugate gradients excluded (needs SPD); the quick tier runs the full solver product for one MDA kind and crosses the other axes at the default solver; loud Lanczos-type solver breakdowns and the documented compute_all_jacobians weak-coupling error are accepted and counted.",
+        text="Full product over 10 coupled systems (fully coupled, weakly coupled downstream / upstream, self-coupled, state equation solved inside a discipline or left to the MDA, and a state discipline outside every strongly coupled group: upstream, downstream, pure chain, state left to the MDA; unequal sizes, names sorting differently from production order) x mode {auto, direct, adjoint} x matrix type {sparse, sparse + LU, linear operator} x the 8 linear solvers accepting a non-symmetric system x every non-empty subset of inputs x every non-empty subset of outputs (couplings / states among them) x 2 points x 5 MDA kinds x Jacobian representation (dense, csr, operator) x partial or full fill, plus every ordered pair of requests on the SAME MDA object (discipline API and assembly API); oracle: dF/dx - dF/dy (dR/dy)^-1 dR/dx assembled densely by the harness and self-checked against a monolithic solve, with a tolerance derived from the solver tolerance and the conditioning.  Plus every history of 2-3 (thorough 3-4) linearizations of the same objects with cache tolerances {None, 0, 1e-2} (JacobianAssembly.total_derivatives) / lin_cache_tol_fact {0, 1e-2/tol} (mda.linearize) at the same, a neighbouring (1e-3) or a far point: every zero-tolerance step is compared with the closed form at its own point.",
+        note="3 value alphabets by VERIF_SEED (kappa <= 3); conjugate gradients excluded (needs SPD); the quick tier runs the full solver product for one MDA kind and crosses the other axes at the default solver; steps run under a positive cache tolerance, and the first MDA-level step after the factor is reset, are the documented approximation and are not judged; the integer-coefficient dtype systems and the graphs with a weakly coupled state discipline are crossed with the GMRES-type solvers only (Lanczos-type solvers stagnate there); loud Lanczos-type solver breakdowns and the documented compute_all_jacobians weak-coupling error are accepted and counted.",
         technique="full product of structural axes and two-request histories, dense closed-form implicit-function oracle",
     ),
     "C08": dict(
         engine="E2-product", category="exploration",
-        text="Exhaustive: every labelled digraph on n <= 3 nodes with self-loops and on 4 nodes (without self-loops quick, with thorough) x naming (distinct/duplicated) x I/O and edge-realisation variants is turned into disciplines; the execution sequence and the coupling sets are compared with an independent Warshall SCC/topology oracle; for n <= 3 MDAChain / MDOChain on affine contractive disciplines, in every listing order and with one setting deviation at a time, must equal the monolithic linear solve; initialization-chain ordering against an independent fixed point.",
+        text="Exhaustive: every labelled digraph on n <= 3 nodes with self-loops and on 4 nodes (without self-loops quick, with thorough) x naming (distinct/duplicated) x I/O and edge-realisation variants is turned into disciplines; the execution sequence and the coupling sets are compared with an independent Warshall SCC/topology oracle; for n <= 3 MDAChain / MDOChain on affine contractive disciplines, in every listing order and with one setting deviation at a time, must equal the monolithic linear solve; initialization-chain ordering against an independent fixed point.  Plus an MDAChain settings axis {default, user-given sub_coupling_structures in execution order} over all <= 3-node graphs with a group needing an MDA and the weak / self-coupled / pair typings of all labelled 3-node template DAGs (4-6 nodes: weak groups before / between / after >= 2 MDAs) x listing orders, and a process-kind axis {MDOChain, MDOParallelChain threads / deep copy / 1 worker (/ processes), MDAChain with sequential / parallel stages} over <= 3 independent disciplines writing any subset of two shared output names (1-3 producers per name) x every listing order, last-producer-wins vs whole-system evaluation.",
         note="Structure exhaustive for all digraphs on <= 4 nodes; execution exhaustive for n <= 3 on one affine contractive value alphabet per seed with derived tolerances; not a proof for n > 4 (the statement's 'randomly beyond' is not done: sampling is another family).",
         technique="bounded-exhaustive enumeration of all labelled dependency digraphs, transitive-closure oracle and monolithic-solve oracle",
     ),
@@ -90,7 +90,7 @@ CHECKS = {
     ),
     "C16": dict(
         engine="E2-product", category="exploration",
-        text="Full product of approximator {FirstOrderFD, CenteredDifferences, ComplexStep} x test function (polynomial / analytic with term-wise derivative bounds; m=n and m!=n) x point class (interior, zero components, on/near either bound) x step (scalars, per-component vector, at call or construction) x x_indices (default + every non-empty subset) x serial / process-parallel x design space (none, bounded, normalized), plus the discipline-level wrappers (linearize in the approximation modes, compute_approx_jac with every subset, check_jacobian with every indices form, which must accept the exact Jacobian and reject one wrong entry); oracle: shape, derived Taylor + rounding bound entry by entry, and a shared-memory log of every evaluation point against the upper bounds.",
+        text="Full product of approximator {FirstOrderFD, CenteredDifferences, ComplexStep} x test function (polynomial / analytic with term-wise derivative bounds; m=n and m!=n) x point class (interior, zero components, on/near either bound) x step (scalars, per-component vector, at call or construction) x x_indices (default + every non-empty subset) x serial / process-parallel x design space (none, bounded, normalized), plus the discipline-level wrappers (linearize in the approximation modes, compute_approx_jac with every subset, check_jacobian with every indices form, which must accept the exact Jacobian and reject one wrong entry); oracle: shape, derived Taylor + rounding bound entry by entry, and a shared-memory log of every evaluation point against the upper bounds.  Plus function keyword arguments x serial / 2 processes x 3 approximators x histories of earlier f_gradient / compute_optimal_step calls on one instance (quick: up to one, thorough: up to two, including repeated compute_optimal_step), and Discipline.check_jacobian x auto_set_step x input_data {absent, defaults, off-default points, partial} x method x names x indices x {exact, one wrong entry}.",
         note="Values from three finite alphabets rotated by VERIF_SEED; centered differences within one step of a bound are held to the one-sided bound; only upper bounds are enforced (as the statement says); thread-parallel approximation is excluded by CallableParallelExecution's documented contract.",
         technique="full product of structural axes, analytic oracle with derived error bounds and evaluation-point log",
     ),
